@@ -110,7 +110,8 @@ def run_fuzz(ctx, seeds):
         env = {"ASAN_OPTIONS": "abort_on_error=0:exitcode=97:detect_leaks=0:quarantine_size_mb=8:"
                                "allocator_may_return_null=1",
                "UBSAN_OPTIONS": "print_stacktrace=1:halt_on_error=1"}
-        r = core.run(cmd, env=env, timeout=900 if ctx.quick() else 5 * 3600, retry_timeout=False)
+        limit = 900 if ctx.quick() else 5 * 3600
+        r = core.run(cmd, env=env, timeout=limit, cpu_s=limit, retry_timeout=False)
         return i, r, art
 
     total_exec = 0
@@ -131,8 +132,8 @@ def run_fuzz(ctx, seeds):
         arts = glob.glob(art + "*")
         if r.rc == 0 and not arts:
             continue
-        if r.timeout:
-            ctx.inconclusive_because("fuzzer process %d hit the wall-clock watchdog" % i)
+        if r.timeout or r.sig == 24:
+            ctx.inconclusive_because("fuzzer process %d hit the wall-clock / CPU watchdog" % i)
             continue
         # a finding: key from the report
         key, what = fuzz_key(r.stderr)
